@@ -584,6 +584,36 @@ func (a *fnA) rejectionReason(b *ssa.BasicBlock) (string, bool) {
 
 func (a *fnA) classifyCond(cond ssa.Value, truth bool, blk *ssa.BasicBlock) (string, bool) {
 	switch x := cond.(type) {
+	case *ssa.Phi:
+		// a flag set on several paths: every way it can have the rejecting value
+		// must be an enumerated reason
+		if a.condDepth > 4 {
+			break
+		}
+		a.condDepth++
+		defer func() { a.condDepth-- }()
+		var reasons []string
+		all := true
+		n := 0
+		for i, e := range x.Edges {
+			if k, isK := e.(*ssa.Const); isK && k.Value != nil && k.Value.Kind() == constant.Bool {
+				if constant.BoolVal(k.Value) != truth {
+					continue
+				}
+				all = false // set unconditionally on this path: the path's own branch is the reason, not classified here
+				reasons = append(reasons, "flag set to a constant on one path")
+				continue
+			}
+			n++
+			r, ok := a.classifyCond(e, truth, x.Block().Preds[i])
+			reasons = append(reasons, r)
+			if !ok {
+				all = false
+			}
+		}
+		if n > 0 {
+			return strings.Join(uniq(reasons), " / "), all
+		}
 	case *ssa.Call:
 		if cal := x.Common().StaticCallee(); cal != nil && cal.String() == "(reflect.Value).IsNil" {
 			return "nil target", true
